@@ -225,7 +225,9 @@ class CHECK(Check):
                 res.violation(f'using-params|{predq.USINGS[a["using"]][0]}|{q["shape"]}', f'model {m["name"]}: params {got!r}, expected {expp!r}; {ctx}')
             # (6) columns_map
             cm = {k: '.'.join(str(p) for p in v.parts).lower() for k, v in (st.columns_map or {}).items()}
-            if cm != {k: v.lower() for k, v in m['on_map'].items()}:
+            if m['on_map'] is None:
+                res.count('columns_map_not_fixed_by_the_statement')
+            elif cm != {k: v.lower() for k, v in m['on_map'].items()}:
                 res.violation(f'columns_map|{q["shape"]}', f'model {m["name"]}: columns_map {cm!r}, expected {m["on_map"]!r}; {ctx}')
         # (3)/(4) fetch filters
         top_eq_model_cols = {c[3] for c in q['conjuncts'] if c[0] == 'm'}
